@@ -1,7 +1,7 @@
 (* SI/Props.v — theorems of property C01 (snapshot isolation and external consistency), over the MVCC store
    model Mvcc/Model.v ([step], [run]) for ALL command sequences obeying the timestamp discipline [oracle_ts]
    (Mvcc/Spec.v), plus an abstract event order for external consistency. Definitions: SI/Model.v. *)
-From Verif Require Import SI.Model SI.ProofsTrans SI.ProofsRead SI.ProofsKeyed SI.AsyncStore SI.TwoPC SI.ProofsWW SI.ProofsIns SI.ProofsInsPoint SI.ProofsLockRead SI.Resolver SI.ProofsExt SI.ProofsOracle.
+From Verif Require Import SI.Model SI.ProofsTrans SI.ProofsRead SI.ProofsKeyed SI.AsyncStore SI.TwoPC SI.ProofsWW SI.ProofsIns SI.ProofsInsPoint SI.ProofsLockRead SI.Resolver SI.Push SI.ProofsExt SI.ProofsOracle.
 
 (* ---- 1. reads are a function of the committed history restricted to commit ts <= read ts *)
 (* a point get on any reachable store answers either the history read at its read ts (at [eff_ts], which is the
@@ -238,6 +238,36 @@ Theorem C01_memo_same_history : forall a b k s d caller cur rine rp obs,
 Proof. exact memo_skip. Qed.
 Print Assumptions C01_memo_same_history.
 
+(* ---- 7. the (met) rule derived: a reader may pass a Put/Delete lock of s once CheckTxnStatus pushed the min_commit_ts of
+   s's primary above its ts *)
+(* the store side of the push: answer MinCommitTSPushed for caller ts t on a prewrite lock => primary's min_commit_ts > t *)
+Theorem C01_cts_pushes : forall st kp s t cur rine rp ttl, Mvcc.ProofsStore.keys_sorted st -> t <> max_ts ->
+  (forall lp, lock_of st kp = Some lp -> is_pess lp = false) ->
+  snd (step st (CheckTxnStatus kp s t cur rine rp)) = RStatus ttl 0 AMinCommitTSPushed ->
+  pushed (fst (step st (CheckTxnStatus kp s t cur rine rp))) kp s t = true.
+Proof. exact cts_pushes. Qed.
+Print Assumptions C01_cts_pushes.
+
+(* joint trace as in C01_twopc_read_stable; the lock met on k may belong to s, whose primary kp is pushed above t on the
+   store the read is served on. Rules for what follows: [trules] (T1-T3) and [prules]: a (start, commit) pair of s is
+   carried only by a commit request naming the primary or once the primary holds that commit record (C04: secondaries are
+   committed, and resolvers act, only after the primary is committed / on the status it reported), no GC over s. The
+   store refuses a primary commit below min_commit_ts (a refused request is a no-op: [stable_suffix_e]), min_commit_ts never
+   decreases while the lock is held, and one transaction has one commit ts: the read never changes. *)
+Theorem C01_pushed_read_stable : forall A B k kp s t,
+  trules k [] 0 [] (A ++ B) = true -> prules kp s (run (cmds_of A)) B = true -> t <= tlast 0 A ->
+  oracle_ts (cmds_of A ++ cmds_of B) = true -> forallb (gc_ok t) (cmds_of B) = true ->
+  pushed (run (cmds_of A)) kp s t = true -> met_rule_p (run (cmds_of A)) k s t (flat_map cmd_pairs (cmds_of B)) = true ->
+  stable_suffix_e (run (cmds_of A)) k t (cmds_of B) = true /\
+  read_at (run (cmds_of A ++ cmds_of B)) k t = read_at (run (cmds_of A)) k t.
+Proof. exact pushed_read_stable. Qed.
+Print Assumptions C01_pushed_read_stable.
+
+Theorem C01_read_stable_noop : forall a b k t, oracle_ts (a ++ b) = true -> stable_suffix_e (run a) k t b = true ->
+  read_at (run (a ++ b)) k t = read_at (run a) k t.
+Proof. exact read_stable_e. Qed.
+Print Assumptions C01_read_stable_noop.
+
 (* the client glue (getTxnStatus, differentially tested against the code by driver `sistatus`): only cacheable statuses
    are ever memoised; a hit answers the memoised status without a request; a miss sends one and memoises iff cacheable;
    cacheable = committed or rolled back *)
@@ -368,6 +398,35 @@ Definition ex_trace_bad : list tev :=
 Example ex_trules_bad : trules 1 [] 0 [] ex_trace_bad = false /\ oracle_ts (cmds_of ex_trace_bad) = true
   /\ read_at (run (cmds_of (firstn 4 ex_trace_bad))) 1 (T 5) = None /\ read_at (run (cmds_of ex_trace_bad)) 1 (T 5) = Some 33.
 Proof. vm_compute. repeat split. Qed.
+(* pushed primary: transaction 4 prewrites k1 (primary) and k2; the reader takes 5, has the primary's min_commit_ts pushed to
+   5 + 1, passes the lock on k2 (resolved list) and reads nothing; the writer then commits at 8: k2 at 5 stays empty *)
+Definition ex_push_A : list tev :=
+  [ TTso (T 4); TReq (Prewrite [mkMut MPut 1 33 AsNone false; mkMut MPut 2 44 AsNone false] 1 (T 4) 0 3 (T 4 + 1) false);
+    TTso (T 5); TReq (CheckTxnStatus 1 (T 4) (T 5) (T 5) false false); TReq (Get 2 (T 5) [T 4]) ].
+Definition ex_push_B : list tev :=
+  [ TTso (T 8); TReq (Commit [1] (T 4) (T 8)); TAck (T 8); TReq (Commit [2] (T 4) (T 8)) ].
+Example ex_pushed :
+  snd (step (run (cmds_of (firstn 3 ex_push_A))) (CheckTxnStatus 1 (T 4) (T 5) (T 5) false false)) = RStatus 3 0 AMinCommitTSPushed
+  /\ get (run (cmds_of (firstn 4 ex_push_A))) 2 (T 5) [T 4] = RGet None
+  /\ pushed (run (cmds_of ex_push_A)) 1 (T 4) (T 5) = true
+  /\ trules 2 [] 0 [] (ex_push_A ++ ex_push_B) = true /\ prules 1 (T 4) (run (cmds_of ex_push_A)) ex_push_B = true
+  /\ tlast 0 ex_push_A = T 5 /\ oracle_ts (cmds_of ex_push_A ++ cmds_of ex_push_B) = true
+  /\ met_rule_p (run (cmds_of ex_push_A)) 2 (T 4) (T 5) (flat_map cmd_pairs (cmds_of ex_push_B)) = true
+  /\ met_rule (run (cmds_of ex_push_A)) 2 (T 5) (flat_map cmd_pairs (cmds_of ex_push_B)) = true
+  /\ read_at (run (cmds_of (ex_push_A ++ ex_push_B))) 2 (T 5) = None /\ read_at (run (cmds_of (ex_push_A ++ ex_push_B))) 2 (T 8) = Some 44.
+Proof. vm_compute. repeat split. Qed.
+(* a primary commit below the pushed min_commit_ts is refused as a whole - a no-op - also for the secondary in the batch *)
+Example ex_pushed_refused :
+  is_noop (run (cmds_of ex_push_A)) (Commit [1; 2] (T 4) (T 4 + 1)) = true
+  /\ snd (step (run (cmds_of ex_push_A)) (Commit [1; 2] (T 4) (T 4 + 1))) = RErr (Some (ECommitTsExpired (T 5 + 1)))
+  /\ safe_step (run (cmds_of ex_push_A)) (Commit [1; 2] (T 4) (T 4 + 1)) 2 (T 5) = false
+  /\ safe_step_e (run (cmds_of ex_push_A)) (Commit [1; 2] (T 4) (T 4 + 1)) 2 (T 5) = true.
+Proof. vm_compute. repeat split. Qed.
+(* [prules] is needed: a secondary committed before the primary (below the pushed min_commit_ts) changes the read *)
+Example ex_pushed_bad :
+  prules 1 (T 4) (run (cmds_of ex_push_A)) [TReq (Commit [2] (T 4) (T 4 + 1))] = false
+  /\ read_at (run (cmds_of ex_push_A ++ [Commit [2] (T 4) (T 4 + 1)])) 2 (T 5) = Some 44.
+Proof. vm_compute. split; reflexivity. Qed.
 (* resolver cache: a committed answer is final ... *)
 Example ex_status_final :
   let c := CheckTxnStatus 1 (T 1) (T 5) (T 5) true false in
